@@ -83,7 +83,13 @@ fn gen_lock_fault(s: &mut Sched) -> LockFault {
         2 => LockFault::FreshPair,
         3 | 4 => LockFault::ForeignPair { pick: s.u64() % 1000 },
         5 | 6 => LockFault::WrongBf { mode: s.usize(3) as u8 },
-        7 => LockFault::CompensatedBf { pick: s.u64() % 1000 },
+        7 => {
+            if s.chance(1, 2) {
+                LockFault::CompensatedBf { pick: s.u64() % 1000 }
+            } else {
+                LockFault::OtherIndex
+            }
+        }
         _ => LockFault::Corrupt { field: s.usize(3) as u8 },
     }
 }
